@@ -227,6 +227,21 @@ func smtFaults() []smtFault {
 			p.IssuerData.State.Value = hexOfInt(st)
 			res.mode = "published"
 		}},
+		{name: "state-near-miss-published", apply: func(s *verifySetup, p *verifiable.Iden3SparseMerkleTreeProof, res *resolverCfg, r *Rng) {
+			if p.IssuerData.State.Value != nil {
+				if h, err := merkletree.NewHashFromHex(*p.IssuerData.State.Value); err == nil {
+					p.IssuerData.State.Value = hexOfInt(nearMiss(h.BigInt(), r))
+				}
+			}
+			res.mode = "published"
+		}},
+		{name: "claims-root-near-miss", apply: func(s *verifySetup, p *verifiable.Iden3SparseMerkleTreeProof, res *resolverCfg, r *Rng) {
+			if p.IssuerData.State.ClaimsTreeRoot != nil {
+				if h, err := merkletree.NewHashFromHex(*p.IssuerData.State.ClaimsTreeRoot); err == nil {
+					p.IssuerData.State.ClaimsTreeRoot = hexOfInt(nearMiss(h.BigInt(), r))
+				}
+			}
+		}},
 		{name: "state-nil", apply: func(s *verifySetup, p *verifiable.Iden3SparseMerkleTreeProof, res *resolverCfg, r *Rng) {
 			p.IssuerData.State.Value = nil
 		}},
